@@ -29,7 +29,10 @@ FREQS = ("SECONDLY", "MINUTELY", "HOURLY", "DAILY", "WEEKLY", "MONTHLY", "YEARLY
 UTC = timezone.utc
 PARTS = {
     "UNTIL": (("date", 2025, 12, 31), ("naive", 2025, 12, 31, 23, 59, 59), ("utc", 2025, 12, 31, 23, 59, 59),
-              ("utc", 999, 1, 2, 3, 4, 5), ("date", 33, 4, 3)),  # years that need zero padding
+              ("utc", 999, 1, 2, 3, 4, 5), ("date", 33, 4, 3),  # years that need zero padding
+              # a fraction of a second (datetime.max-style bounds): the text has one-second resolution, the bound lies
+              # before the next whole second, on which an occurrence falls (DTSTART 09:00:00, DAILY / HOURLY ...)
+              ("naive", 2024, 1, 5, 8, 59, 59, 600000), ("utc", 2024, 1, 5, 8, 59, 59, 999999), ("naive", 2024, 1, 5, 8, 59, 59, 400000)),
     "COUNT": (1, 10),
     "INTERVAL": (1, 2, 13),
     # incl. the ends of every RFC range (BYSECOND 0-60, BYMINUTE 0-59, BYHOUR 0-23, +-31, +-366, +-53)
@@ -77,7 +80,7 @@ def ref_text(part, v):
     if part == "UNTIL":
         if v[0] == "date":
             return "%04d%02d%02d" % v[1:]
-        return "%04d%02d%02dT%02d%02d%02d" % v[1:] + ("Z" if v[0] == "utc" else "")
+        return "%04d%02d%02dT%02d%02d%02d" % v[1:7] + ("Z" if v[0] == "utc" else "")
     return str(v).upper() if part in ("BYDAY", "WKST", "FREQ") else str(v)
 
 
@@ -86,7 +89,7 @@ def ref_typed(part, v):
     if part == "UNTIL":
         if v[0] == "date":
             return ("date",) + v[1:]
-        return ("datetime",) + v[1:] + (0.0 if v[0] == "utc" else None,)
+        return ("datetime",) + v[1:7] + (0.0 if v[0] == "utc" else None,)
     if part in ("COUNT", "INTERVAL", "BYSECOND", "BYMINUTE", "BYHOUR", "BYMONTHDAY", "BYYEARDAY", "BYWEEKNO", "BYSETPOS"):
         return int(v)
     if part == "BYMONTH":
